@@ -12,7 +12,7 @@ from . import net as N
 from .netcommon import Ctx, write
 
 PREFIXES = ["", "/", "\\", "//", "\\\\", "/\\", "C:\\", "C:/"]
-SEGMENTS = ["..", ".", "", "a.txt", "sub", "srv", "srv2", "secret.txt", "etc", "passwd", "...", "..a"]
+SEGMENTS = ["..", ".", "", "a.txt", "sub", "srv", "srv2", "secret.txt", "etc", "passwd", "...", "..a", "big.bin"]
 JOINERS = ["/", "\\"]
 
 
@@ -47,6 +47,7 @@ def build_tree(sb, distinct):
         "outside/secret.txt": b"CANARY outside/secret.txt", "outside/etc/passwd": b"CANARY outside/etc/passwd", "secret.txt": b"CANARY root secret.txt",
         "a.txt": b"CANARY root a.txt", "srv2/secret.txt": b"CANARY srv2/secret.txt", "srv2/a.txt": b"CANARY srv2/a.txt", "srv_/a.txt": b"CANARY srv_/a.txt",
         "srv/a.txt": b"INSIDE srv/a.txt", "srv/sub/b.txt": b"INSIDE srv/sub/b.txt", "srv/secret.txt": b"INSIDE srv/secret.txt", "srv/sub/a.txt": b"INSIDE srv/sub/a.txt",
+        "srv/big.bin": N.keyed_content("c03-big", 6000), "outside/big.bin": N.keyed_content("c03-big-outside", 6000),
         "srv/...": b"INSIDE srv/...", "srv/..a": b"INSIDE srv/..a", "srv/etc/passwd": b"INSIDE srv/etc/passwd", "srv/srv2/a.txt": b"INSIDE srv/srv2/a.txt",
     }
     if distinct:
@@ -177,6 +178,18 @@ def run_config(v, ctx, tftpd, thorough, names, cfgname, dist, ow, rng):
         os.makedirs(sb["rcv"], exist_ok=True)
     files = build_tree(sb, dist)
     by_content = {c: rel for rel, c in files.items()}
+    # downloads of more than 4096 bytes are cut short by the client with an ERROR (an aborted download): known by prefix
+    big = {rel: c for rel, c in files.items() if len(c) > 4096}
+
+    class _ByContent(dict):
+        def get(self, key, default=None):
+            if key in self:
+                return self[key]
+            for rel, c in big.items():
+                if len(key) > 4096 and c.startswith(key):
+                    return rel
+            return default
+    by_content = _ByContent(by_content)
     initial = N.snapshot(sb["root"])
     send_dir, recv_dir = sb["srv"], sb["rcv"]
     if "nested-relative" in cfgname:
